@@ -19,6 +19,21 @@ NAME_FOR_TYPE = {"String": "str_var", "Number": "num_var", "Integer": "int_var",
                  "Date": "date_var", "Time_Period": "time_period_var", "Time": "time_var", "Duration": "duration_var"}
 SUBTYPE = {("Integer", "Number")}   # Integer is a subtype of Number (no rename when promoted)
 
+CAST_TYPE_NAME = {"Integer": "Integer", "Number": "Number", "String": "String", "Boolean": "Boolean", "Date": "Date",
+                  "TimePeriod": "Time_Period", "TimeInterval": "Time", "Duration": "Duration"}
+_DOC_IMPLICIT = None
+
+
+def documented_implicit():
+    """{(from, to)} pairs of the 'Implicit Casting' table of docs/data_types.rst (parsed at run time) + identity"""
+    global _DOC_IMPLICIT
+    if _DOC_IMPLICIT is None:
+        from vt import docs
+        m = docs.matrix("docs/data_types.rst", "Implicit Casting (Automatic)")
+        _DOC_IMPLICIT = {k for k, cell in m.items() if cell == "|y|"}
+    return _DOC_IMPLICIT
+
+
 ARITH = {"+", "-", "*", "/"}
 CMP = {"=", "<>", ">", "<", ">=", "<="}
 BOOL2 = {"and", "or", "xor"}
@@ -577,7 +592,10 @@ class Ref:
             dv, rt = as_kind(d[0], "int"), "Number"
         f = self.ctx.uf(op, z3.RealSort(), z3.IntSort(), z3.RealSort())
         # a NULL precision behaves as 0 (documented default)
-        dval = z3.If(dv.null, 0, dv.val)
+        dval = z3.simplify(z3.If(dv.null, 0, dv.val))
+        if op == "trunc" and z3.is_int_value(dval) and dval.as_long() == 0:
+            from vt.sqlsmt.sym import trunc_real
+            return SV("real", x.null, z3.ToReal(trunc_real(x.val))), rt      # truncation toward zero, exact
         return SV("real", x.null, f(x.val, dval)), rt
 
     def s_between(self, x, lo, hi):
@@ -601,7 +619,7 @@ class Ref:
             return NAME_FOR_TYPE[out_type]
         return name
 
-    def map_measures(self, ds, fn):
+    def map_measures(self, ds, fn, rename_rule=None):
         """Apply fn((SV, type), guard) -> (SV, type) to every measure; identifiers pass, attributes dropped."""
         meas = ds.measures()
         mono = len(meas) == 1
@@ -633,7 +651,7 @@ class Ref:
             raise Unsupported("oracle: dataset without symbolic rows")
         rename = {}
         for m in meas:
-            nn = self.result_type_name(ds.comp(m)[1], out_types[m], mono, m)
+            nn = rename_rule(ds.comp(m)[1], out_types[m], m) if rename_rule else self.result_type_name(ds.comp(m)[1], out_types[m], mono, m)
             rename[m] = nn
             comps.append((nn, out_types[m], "Measure"))
         for row in rows:
@@ -765,8 +783,51 @@ class Ref:
             tname = {"Integer": "Integer", "Number": "Number", "String": "String", "Boolean": "Boolean"}.get(getattr(tgt, "__name__", ""), None)
             if type(src).__name__ == "Constant" and src.value is None and tname:
                 return NULL(KIND_OF_TYPE[tname]), tname
-            raise Unsupported("oracle: cast")
+            if node.params:
+                raise Unsupported("oracle: cast with mask")
+            tname = CAST_TYPE_NAME.get(getattr(tgt, "__name__", ""))
+            if tname is None:
+                raise Unsupported("oracle: cast target %r" % tgt)
+            x = self.ev(src)
+            if isinstance(x, RDS):
+                if len(x.measures()) != 1:
+                    raise Unsupported("oracle: cast on a dataset needs exactly one measure")
+                imp = documented_implicit()
+                return self.map_measures(x, lambda mv, g: self.s_cast(mv, tname, g),
+                                         rename_rule=lambda it, ot, name: name if (it, ot) in imp else NAME_FOR_TYPE[ot])
+            g = self.row[1].present if self.row is not None else TRUE
+            return self.s_cast(x, tname, g)
         raise Unsupported("oracle ParamOp %s" % op)
+
+    def s_cast(self, a, tname, guard):
+        """Documented conversion rules (docs/data_types.rst, 'Explicit Casting'): 0 -> false / other -> true; true -> 1, false -> 0;
+        Boolean -> String 'True' / 'False'; Integer <-> Number value preserving, Number -> Integer truncating toward zero (VTL 2.2)."""
+        from vt.sqlsmt.sym import int_to_double, trunc_real
+        v, st = a
+        if v.kind == "null":
+            return NULL(KIND_OF_TYPE[tname]), tname
+        if st == tname:
+            return v, tname
+        if tname == "Number" and st == "Integer":
+            return keep_dc(SV("real", v.null, int_to_double(self.ctx, v.val)), v), tname
+        if tname == "Integer" and st == "Number":
+            # outside the BIGINT range the conversion cannot succeed: a runtime error is acceptable
+            self.may_err.append(z3.And(guard, z3.Not(v.null), z3.Or(v.val >= 2 ** 63, v.val <= -2 ** 63)))
+            return keep_dc(SV("int", v.null, trunc_real(v.val)), v), tname
+        if tname == "Boolean" and st in NUMERIC:
+            return keep_dc(SV("bool", v.null, v.val != 0), v), tname
+        if st == "Boolean" and tname == "Integer":
+            return keep_dc(SV("int", v.null, z3.If(v.val, 1, 0)), v), tname
+        if st == "Boolean" and tname == "Number":
+            return keep_dc(SV("real", v.null, z3.If(v.val, z3.RealVal(1), z3.RealVal(0))), v), tname
+        if tname == "String":
+            if st == "Integer":
+                return keep_dc(SV("str", v.null, self.ctx.uf("int_to_str", z3.IntSort(), z3.StringSort())(v.val)), v), tname
+            if st == "Number":
+                return keep_dc(SV("str", v.null, self.ctx.uf("real_to_str", z3.RealSort(), z3.StringSort())(v.val)), v), tname
+            if st == "Boolean":
+                return keep_dc(SV("str", v.null, z3.If(v.val, z3.StringVal("True"), z3.StringVal("False"))), v), tname
+        raise Unsupported("oracle: cast %s -> %s" % (st, tname))
 
     def n_MulOp(self, node):
         op = node.op
